@@ -7,7 +7,8 @@ package mysess
 //	UPDATE t SET c=v[,..] [WHERE cond]
 //	SELECT cols|* FROM t [WHERE cond]
 //	DELETE FROM t [WHERE cond]
-//	cond: c = v | c <> v | c != v | c IS [NOT] NULL | substr(c, 1, n) = v | (cond) | cond AND cond | cond OR cond
+//	cond: c = v | c <> v | c != v | c IS [NOT] NULL | substr(c, 1, n) = v | convert(substr(c, 1, n), binary) = v |
+//	      (cond) | cond AND cond | cond OR cond
 //	values: NULL, [-]integers, '...' / "..." strings with MySQL escapes, X'hex' / 0xhex / _binary'..' literals, ?
 //
 // Anything else (SET, BEGIN, COMMIT, USE ...) is answered with OK.
@@ -472,6 +473,20 @@ func (p *parser) operand() (operand, error) {
 	case t.kind == tIdent && !t.q && strings.EqualFold(t.s, "null"):
 		p.pos++
 		return operand{kind: "lit", lit: lNull}, nil
+	case t.kind == tIdent && !t.q && strings.EqualFold(t.s, "convert") && p.toks[p.pos+1].kind == tSym && p.toks[p.pos+1].s == "(":
+		// convert(expr, binary): a change of type only, the bytes compared are those of expr
+		p.pos += 2
+		inner, err := p.operand()
+		if err != nil {
+			return operand{}, err
+		}
+		if err := p.expectSym(","); err != nil {
+			return operand{}, err
+		}
+		if _, err := p.ident(); err != nil {
+			return operand{}, err
+		}
+		return inner, p.expectSym(")")
 	case t.kind == tIdent && !t.q && (strings.EqualFold(t.s, "substr") || strings.EqualFold(t.s, "substring")) && p.toks[p.pos+1].kind == tSym && p.toks[p.pos+1].s == "(":
 		p.pos += 2
 		col, err := p.qident()
